@@ -32,7 +32,7 @@ TRUSTED_BASE = [
     "model coq/model/Tunnel.v: HTTPConnection.set_tunnel's checks with the character classes regenerated from the source, and, transcribed by hand, http.client's set_tunnel/_tunnel of CPython 3.12 (Host field added when absent, fields written as 'name: value' in latin-1); IDNA hosts and bracketed IPv6 literals are judged by the oracle only",
     "model coq/model/Tunnel.v: HTTP2Connection.putheader with the name class and its end anchor regenerated from the source; the value pattern is pinned as text and transcribed by hand; what h2 does with the kept fields is outside",
 ]
-ASSUMPTIONS = ["header names are distinct case-insensitively", "str inputs (not bytes)"]
+ASSUMPTIONS = ["header names are distinct case-insensitively", "the model takes str inputs; header names given as bytes are judged by the oracle's reader only"]
 EXHAUSTIVE = {"quick": False, "thorough": False}
 CASE_TIMEOUT = 30
 
@@ -63,7 +63,7 @@ def in_model_domain(case):
         labels = h.split(".")
         return (all(ord(c) < 128 for c in h) and "[" not in h and "]" not in h and all(1 <= len(l) <= 63 for l in labels[:-1]) and len(labels[-1]) <= 63
                 and len(h) > 0 and len({n.lower() for n, v in case["headers"]}) == len(case["headers"]))
-    return not case.get("body") and not case.get("then")
+    return not case.get("body") and not case.get("then") and not case.get("bnames")
 
 
 def payload_of(body):
@@ -104,6 +104,12 @@ def impl(case):
     net = Net10()
     problems = []
     headers = {n: v for n, v in case["headers"]}
+    if case.get("bnames"):
+        # header names given as bytes (supported: http.client takes them, urllib3 decodes them to look for Host / Accept-Encoding / User-Agent)
+        try:
+            headers = {n.encode("latin-1"): v for n, v in case["headers"]}
+        except UnicodeEncodeError:
+            pass
     out = None
     kw = {}
     if case.get("body"):
@@ -471,6 +477,22 @@ def cases(rng, tier):
     for _ in range(1000 if tier == "quick" else 30000):
         c = one_case(rng)
         c["body"] = rand_body(rng)
+        out.append(c)
+    # header names given as bytes: the automatic fields still appear only when the caller neither supplied nor suppressed them
+    for level in (1, 2, 3):
+        for name in ("Host", "host", "User-Agent", "USER-AGENT", "Accept-Encoding", "accept-encoding", "X-A"):
+            for value in ("v", "@@@SKIP_HEADER@@@", "a\r\nX: 1", ""):
+                for method in ("GET", "POST"):
+                    base = {"level": level, "method": method, "url": "/a/b", "headers": [[name, value], ["X-B", "1"]], "bnames": True}
+                    out.append(base)
+                    if value == "v":
+                        out.append(dict(base, body=["bytes", b"payload"]))
+                        out.append(dict(base, body=["iter", ["pay", "load"]]))
+    for _ in range(600 if tier == "quick" else 15000):
+        c = one_case(rng)
+        c["bnames"] = True
+        if rng.random() < 0.3:
+            c["body"] = rand_body(rng)
         out.append(c)
     # a connection object used again after a failed request(): every way the first request can fail part-way
     nxt = {"method": "GET", "url": "/second", "headers": [["X-Next", "1"]]}
